@@ -27,7 +27,8 @@ REQUIRED = ["source_chart", "source_simfile", "version_0.7", "version_0.69", "ve
             "chart_offset_absent_simfile_offset_set", "dbpm_static", "dbpm_range", "dbpm_random", "dbpm_malformed",
             "dbpm_fallback_single", "dbpm_fallback_range", "dbpm_fallback_range_equal_values", "ignore_specified",
             "non_timing_chart_property_set", "chart_value_identical_to_simfile_value", "key_only_chart_timing_property",
-            "sm_simfile_stops_spelled_freezes", "dbpm_number_equal_to_zero"]
+            "sm_simfile_stops_spelled_freezes", "dbpm_number_equal_to_zero", "chart_timing_value_of_blanks_only",
+            "timing_text_of_256_or_more_characters"]
 
 PROPS = ["BPMS", "STOPS", "DELAYS", "TIMESIGNATURES", "TICKCOUNTS", "COMBOS", "WARPS", "SPEEDS", "SCROLLS", "FAKES", "LABELS"]
 VERSIONS = [None, "", "0.69", "0.7", "0.70", "0.83", "1.0"]
@@ -126,7 +127,7 @@ def rnum(rng, lo=1, hi=999):
 
 def tagged_values(rng, side):
     base = 100 if side == "s" else 500
-    n = rng.choice([1, 1, 2, 3])
+    n = rng.choice([1, 1, 2, 3, 3, 24])   # 24 events: a text of several hundred characters
     if n > 1 and rng.random() < 0.3:
         v = base + rng.randint(0, 399)
         bpms = ",".join(f"{4 * i}.000={v}{rng.choice(['', '.0', '.000'])}" for i in range(n))  # several entries, one value
@@ -218,6 +219,10 @@ def run_one(ctx, case):
                     ctx.feat("key_only_chart_timing_property")
             elif st == 2:
                 chart[key] = cv[key]
+                if rng.random() < 0.06:
+                    # blanks only: not an empty value (it makes the chart the source like any other text), no events
+                    chart[key] = rng.choice([" ", "\n", "\t \n"])
+                    ctx.feat("chart_timing_value_of_blanks_only")
         for key in ("ATTACKS", "CHARTNAME", "CREDIT", "MUSIC", "KEYSOUNDS"):
             if rng.random() < 0.3:
                 chart[key] = rng.choice(["TIME=1.000:END=2.000:MODS=*2 drunk", "x", "0.000=1.000"])  # never a trigger
@@ -256,24 +261,40 @@ def run_one(ctx, case):
     if from_chart and not chart.get("OFFSET") and sf.get("OFFSET"):
         ctx.feat("chart_offset_absent_simfile_offset_set")
 
-    ctx.mon("timingdata_source")
-    td = TimingData(sf, chart) if chart is not None else (TimingData(sf) if rng.random() < 0.5 else TimingData(sf, None))
     detail = {"config": case, "version": version, "simfile": dict(sf), "chart": dict(chart) if chart is not None else None,
               "expected_source": "chart" if from_chart else "simfile"}
-    for attr, key in (("bpms", "BPMS"), ("stops", "STOPS"), ("delays", "DELAYS"), ("warps", "WARPS")):
-        text = src.get(key)
-        if key == "STOPS" and "STOPS" not in src and src is sf and case["sf"] == "sm":
-            text = src.get("FREEZES")
-        want = parse_events(text)
-        got = [(Fraction(e.beat), e.value) for e in getattr(td, attr)]
-        if got != want:
-            ctx.violation(f"timingdata:{attr}-from-wrong-source-or-wrong-value", dict(detail, field=key, got=repr(got), want=repr(want)))
-    want_off = Decimal(src.get("OFFSET") or 0)
-    if not (type(td.offset) is Decimal and td.offset == want_off):
-        ctx.violation("timingdata:offset", dict(detail, got=repr(td.offset), want=str(want_off)))
+    one_arg = rng.random() < 0.5
+    for attempt in (0, 1):
+        # the second reading comes after the caller has edited the lists of the first result in place
+        ctx.mon("timingdata_source")
+        td = TimingData(sf, chart) if chart is not None else (TimingData(sf) if one_arg else TimingData(sf, None))
+        for attr, key in (("bpms", "BPMS"), ("stops", "STOPS"), ("delays", "DELAYS"), ("warps", "WARPS")):
+            text = src.get(key)
+            if key == "STOPS" and "STOPS" not in src and src is sf and case["sf"] == "sm":
+                text = src.get("FREEZES")
+            want = parse_events(text)
+            got = [(Fraction(e.beat), e.value) for e in getattr(td, attr)]
+            if len(text or "") >= 256:
+                ctx.feat("timing_text_of_256_or_more_characters")
+            if got != want:
+                ctx.violation(f"timingdata:{attr}-from-wrong-source-or-wrong-value" + (":second-reading-after-in-place-edits" if attempt else ""),
+                              dict(detail, field=key, got=repr(got)[:300], want=repr(want)[:300]))
+        want_off = Decimal(src.get("OFFSET") or 0)
+        if not (type(td.offset) is Decimal and td.offset == want_off):
+            ctx.violation("timingdata:offset", dict(detail, got=repr(td.offset), want=str(want_off)))
+        if attempt == 0:
+            from simfile.timing import Beat, BeatValue
+
+            td.bpms.append(BeatValue(Beat(999), Decimal("1")))
+            if len(td.bpms) > 2:
+                del td.bpms[1]
+            td.stops.clear()
+            td.delays.insert(0, BeatValue(Beat(1, 48), Decimal("7")))
+            td.warps.reverse()
+            td.offset = Decimal("99")
 
     # displayed BPM
-    if not src.get("BPMS"):
+    if not parse_events(src.get("BPMS")):
         ctx.skip("displaybpm: chosen source has no BPMS (outside the clause)")
         return
     ctx.mon("displaybpm")
